@@ -25,6 +25,11 @@ MOLS = {
     "LiHgc": dict(atom="Li 0 0 -0.35; H 0 0 1.25", basis={
         "Li": [[0, [16.1, 0.15, -0.03], [2.9, 0.53, -0.12], [0.8, 0.44, 0.1], [0.06, 0.0, 1.0]], [1, [0.16, 1.0]]],
         "H": [[0, [3.4, 0.15, 0.0], [0.62, 0.53, 0.2], [0.17, 0.44, 1.0]]]}, spin=0),
+    # generally contracted shells with l >= 1 as well (NCTR = 2 in the Li p shell): the AO offset of the k-th contracted
+    # function of a shell is k (2l + 1), which coincides with k only for s shells
+    "LiHgcp": dict(atom="Li 0 0 -0.35; H 0 0 1.25", basis={
+        "Li": [[0, [16.1, 0.15, -0.03], [2.9, 0.53, -0.12], [0.8, 0.44, 0.1], [0.06, 0.0, 1.0]], [1, [1.1, 0.35, 0.0], [0.16, 0.8, 1.0]]],
+        "H": [[0, [3.4, 0.15, 0.0], [0.62, 0.53, 0.2], [0.17, 0.44, 1.0]], [1, [0.9, 1.0]]]}, spin=0),
     # an element that re-occurs after a different one (atom order H, O, H): per-element tables are indexed by atom
     "HOH": dict(atom="H 0 0.76 -0.48; O 0 0 0.1; H 0 -0.76 -0.48", basis="sto-3g", spin=0),
     # a third-period element between two hydrogens: PySCF gives it different radial / angular tables at the same level
